@@ -325,6 +325,9 @@ func runC11(c *Ctx, r *Report) {
 	c11Coalesce(c, r, "C11-c/coalesce-empty")
 	c11DecimalBase(c, r, "C11-a/decimal-base", stdlibPkg)
 	stageKeepsNoAtomicState(c, r, "C11-d/atomic-state", nil, true)
+	// (e) characters are whole code points: a rune is never cut down to its low byte to be classified or emitted
+	nn := runeNarrowingSites(c, r, "C11-e/rune-narrowing", "a rune of the argument is truncated to a byte (table index, comparison or output): a non-ASCII character is then taken for the ASCII character that shares its low 8 bits (U+2020 for a blank, U+010A for a newline), so the helper mis-splits or mangles text the documentation says it handles", stdlibPkg, "rare/pkg/humanize", "rare/pkg/stringSplitter")
+	r.OK("C11-e/rune-narrowing", stdlibPkg, "scan", "-", fmt.Sprintf("scan: %d rune-to-byte conversion(s) of non-constant runes examined", nn))
 }
 
 func c11ErrorMarkers(c *Ctx, r *Report) {
